@@ -2913,6 +2913,33 @@ pub fn run(args: &Args) {
                     cx.frames(&relax, None);
                 }
             }
+            // group_send: every key vector with at least one keyless device (negative entry) for 1 and 2 groups:
+            // the keyless device below, between and above the keyed ones, keys in both orders
+            if cx.n >= 2 {
+                for nt in 1..=(cx.n - 1).min(2) {
+                    let tuples: Vec<Sx> = (0..nt).map(|_| n("t1", vec![g.gain_det()])).collect();
+                    if !tuples.iter().all(has_model_form) {
+                        continue;
+                    }
+                    let base = nt as i32 + 1; // digits: 0 = keyless, 1..=nt = key 0..nt-1
+                    for code in 0..base.pow(cx.n as u32) {
+                        let mut c = code;
+                        let keys: Vec<i32> = (0..cx.n)
+                            .map(|_| {
+                                let d = c % base;
+                                c /= base;
+                                d - 1
+                            })
+                            .collect();
+                        let all_used = (0..nt as i32).all(|k| keys.contains(&k));
+                        if !all_used || !keys.contains(&-1) {
+                            continue;
+                        }
+                        cx.out.count("group-send:keyless-device-enumerated");
+                        cx.gsrv(&keys, &tuples, None, true);
+                    }
+                }
+            }
             // group_send: malformed key vectors (answered with an error response, nothing sent)
             let t = n("t1", vec![n("null", vec![])]);
             for keys in [vec![], vec![0; cx.n + 1], vec![5; cx.n], vec![i32::MAX; cx.n], vec![i32::MIN; cx.n]] {
